@@ -923,7 +923,7 @@ func computeImmutableFields(c *Ctx) {
 		}
 		if st, ok := t.Underlying().(*types.Struct); ok {
 			for i := 0; i < st.NumFields(); i++ {
-				written[st.Field(i)] = true
+				written[st.Field(i).Origin()] = true
 			}
 		}
 	}
